@@ -516,3 +516,100 @@ def c13_6(run):
             run.sample({'shape': list(shape), 'path': i, 'entries': len(entries), 'out': len(out)})
             run.prove(f'every ready transaction is queued once with nonce difference relative to its account\'s first ready nonce and its own arrival time; output = reverse of the ascending sort {lab}', p.pc, z3.And(*claim))
     run.require_reached(*run.cur.reach)
+
+
+# ----------------------------------------------------------------------------------------------------------------- C13-7
+@obligation('C13', 'C13-7 MempoolInner::insert accounting: accepted => filed in exactly one container and tracked; refused => not tracked; promoted transactions are re-filed or reported')
+def c13_7(run):
+    n_ok = 0
+    run.bound(promotable='0..2 parked transactions become promotable', containers='pending / parked add and find_promotables are oracles that may refuse with any InsertionError (decided in C13-2/3/5)')
+    run.assume('transaction nonce < u32::MAX: insert() panics (`expect`) when a transaction with nonce u32::MAX becomes ready, which needs 2^32-1 executed transactions of one account; excluded as unreachable and listed in DESIGN.md')
+    for k in (0, 1, 2):
+        cfg = {'addr': z3.BitVec('account', 160), 'demote': [], 'promote': [], 'stale_pending': [], 'stale_parked': []}
+        hooks = maint_hooks(cfg)
+
+        def h_add(ctx):
+            which = 'pending' if 'PendingTransactions as' in ctx.callee else 'parked'
+            t = ctx.ex.deref_val(ctx.st, ctx.args[1])
+            tag = t.attrs.get('tag', 'new')
+            okv = z3.Bool(f'{which}_add_ok_{tag}')
+            code = z3.BitVec(f'{which}_add_error_{tag}', 64)
+            ctx.st.log.append(('add', which, tag, okv, code))
+            a = ctx.ex.adts.lookup('InsertionError')
+            nvar = len(a['variants'])
+
+            def mk_err(s2):
+                e = Obj('mempool::transactions_container::InsertionError'); e.discr = code
+                s2.pc.append(z3.ULT(code, nvar))
+                return err(e)
+            return [(okv, ok(())), (z3.Not(okv), mk_err)]
+
+        def h_new_ttx(ctx):
+            arc = ctx.args[0]
+            t = B.struct(ctx.ex, 'TimemarkedTransaction', checked_tx=arc, time_first_seen=z3.BitVec('now', 96), costs=ctx.args[1])
+            t.attrs['tag'] = 'new'; t.attrs['addr'] = cfg['addr']
+            return [(None, t)]
+        hooks = [(re.compile(r'as TransactionsContainer<.*>>::add$'), h_add), (re.compile(r'^(mempool::transactions_container::)?TimemarkedTransaction::new$'), h_new_ttx),
+                 (re.compile(r'^(mempool::transactions_container::)?TimemarkedTransaction::address_bytes$'), lambda ctx: [(None, B.cell(cfg['addr']))]),
+                 (re.compile(r'as TransactionsContainer<.*>>::len$'), lambda ctx: [(None, z3.BitVec('parked_len', 64))])] + hooks
+        ex, W = A.engine(extra_hooks=hooks)
+        promo = []
+        for j in range(k):
+            t, n, c, tid = mk_ttx(ex, f'm{j}'); promo.append((t, tid))
+        cfg['promote'] = [t for t, _ in promo]
+        new, nn, nc, nid = mk_ttx(ex, 'newsrc')
+        arc = B.fld(ex, None, new, 'checked_tx', 'Arc<CheckedTransaction>') if False else new.fields[(None, ex.adts.lookup('TimemarkedTransaction')['fields'].index('checked_tx'))]
+        other = z3.BitVec('other_id', 256)
+        ids = [tid for _, tid in promo] + [other]
+        contained = M.new_map('HashSet<TransactionId>', [(i, ()) for i in ids])
+        inner = B.struct(ex, 'MempoolInner', pending=Obj('PendingTransactions', kind='opaque'), parked=Obj('ParkedTransactions', kind='opaque'), comet_bft_removal_cache=Obj('RemovalCache', kind='opaque'),
+                         recent_execution_results=Obj('RecentExecutionResults', kind='opaque'), contained_txs=contained, metrics=B.cell(Obj('Metrics', kind='opaque')))
+        f = _impl_fn(ex, 'insert', 'MempoolInner')
+        st = ex.start(f, [B.cell(inner), arc, z3.BitVec('account_nonce', 32), B.cell(M.new_map('HashMap<IbcPrefixed, u128>', [(ASSET, z3.BitVec('balance', 128))])), M.new_map('HashMap<IbcPrefixed, u128>', [(ASSET, nc)])])
+        allids = ids + [nid]
+        st.pc += [allids[a] != allids[b] for a in range(len(allids)) for b in range(a + 1, len(allids))]
+        st.pc.append(nn != z3.BitVecVal(0xFFFFFFFF, 32))
+        a_ie = ex.adts.lookup('InsertionError'); vidx = {v['name']: i for i, v in enumerate(a_ie['variants'])}
+        for i, p in enumerate(run.explore(ex, st, allow_havoc=(r'^Arguments::|fmt::',))):
+            lab = f'[{k} promotable, path {i}]'
+            if p.kind != 'return':
+                run.prove(f'no panic {lab}', p.pc, z3.BoolVal(False), detail=p.info); continue
+            post = B.fld(ex, p, ex.read(p, p.roots['args'][0].loc), 'contained_txs', 'HashSet')
+            post_ids = [k_ for k_, _ in post.attrs['items']]
+            removals = [e for e in p.log if e[0] == 'removal']
+            adds = [e for e in p.log if e[0] == 'add']
+            tracked = lambda x: z3.Or(*[x == y for y in post_ids]) if post_ids else z3.BoolVal(False)
+            reported = lambda x: z3.Or(*[x == e[1] for e in removals]) if removals else z3.BoolVal(False)
+            res = p.result
+            kind = res.discr
+            newadds = [e for e in adds if e[2] == 'new']
+            pend = [e for e in newadds if e[1] == 'pending']; park = [e for e in newadds if e[1] == 'parked']
+            run.sample({'promotable': k, 'path': i, 'result': kind, 'adds': [(e[1], e[2]) for e in adds], 'removals': len(removals)})
+            claim = [tracked(other), z3.Not(reported(other)), z3.BoolVal(len(pend) == 1 and len(park) <= 1)]
+            if kind == 'Ok':
+                n_ok += 1
+                status = ex.deref_val(p, res.fields[('Ok', 0)])
+                sd = ex.discr_value(p, status) if not isinstance(status.discr, str) else status.discr
+                a_st = ex.adts.lookup('InsertionStatus'); sidx = {v['name']: j_ for j_, v in enumerate(a_st['variants'])}
+                in_pending = pend[0][3] if pend else z3.BoolVal(False)
+                in_parked = z3.And(z3.Not(in_pending), park[0][3]) if park else z3.BoolVal(False)
+                gap_or_bal = z3.Or(pend[0][4] == vidx['NonceGap'], pend[0][4] == vidx['AccountBalanceTooLow']) if pend else z3.BoolVal(False)
+                is_pending = (sd == sidx['AddedToPending']) if not isinstance(sd, str) else z3.BoolVal(sd == 'AddedToPending')
+                claim += [tracked(nid), z3.Xor(in_pending, in_parked), is_pending == in_pending, z3.Implies(in_parked, gap_or_bal), z3.BoolVal(not park) if False else z3.BoolVal(True)]
+                # the parked container is only consulted after a gap / balance refusal
+                claim.append(z3.BoolVal(bool(park)) == z3.And(z3.Not(in_pending), gap_or_bal) if pend else z3.BoolVal(False))
+                for t, tid in promo:
+                    e_ = [e for e in adds if e[2] == t.attrs['tag']]
+                    if e_:
+                        claim.append(z3.BoolVal(len(e_) == 1 and e_[0][1] == 'pending'))
+                        claim.append(z3.If(e_[0][3], z3.And(tracked(tid), z3.Not(reported(tid))), z3.And(z3.Not(tracked(tid)), reported(tid))))
+                    else:
+                        claim.append(z3.And(tracked(tid), z3.Not(reported(tid))))
+                        claim.append(z3.Not(in_pending))          # promotables are taken out only after the new transaction became ready
+            else:
+                claim += [z3.Not(tracked(nid)), z3.Not(pend[0][3]) if pend else z3.BoolVal(False)] + [z3.Not(e[3]) for e in park]
+                claim += [z3.And(tracked(tid), z3.Not(reported(tid))) for _, tid in promo] + [z3.BoolVal(not any(e[2] != 'new' for e in adds))]
+            run.prove(f'insert files the transaction in exactly one container iff it reports success, tracks it iff filed, and every promoted transaction is re-filed or reported {lab}', p.pc, z3.And(*claim))
+    if not n_ok:
+        raise Inconclusive('vacuity: no accepting path')
+    run.require_reached(*run.cur.reach)
